@@ -230,10 +230,16 @@ func (w *W) mergeVal(c *Term, a, b Value) (Value, bool) {
 		if !ok || x.W != y.W {
 			return nil, false
 		}
+		if w.narrowMerge && x.W > 32 && x != y {
+			return nil, false // keep lengths and indices concrete: fork instead
+		}
 		return ts.Ite(c, x, y), true
 	case Str:
 		y, ok := b.(Str)
 		if !ok {
+			return nil, false
+		}
+		if w.narrowMerge && (x.B != y.B || x.Off != y.Off || x.Len != y.Len) {
 			return nil, false
 		}
 		if x.B == y.B {
